@@ -363,7 +363,7 @@ pub fn case_strategy() -> impl Strategy<Value = UnmockCase> {
 pub const RULE: &str = "programs = generated traits of 1-4 methods (plus an optional recursive method), each with its own unmock_with registration {_, path, path(permuted / subset of self and the parameters)}, &self or &mut self receivers, 0-4 parameters from {u8, i32, &str, &u32, &mut u32, String} with adjacent parameters often sharing a type, sync / async fn / -> impl Future; the target method is resolved to the real implementation through a partial mock (unmentioned or mentioned-but-unmatched) or through applies_unmocked() in a strict mock; recursion depth 0..6 through the mock with the base case answered by a counted pattern. Non-trivial = >= 2 methods with different registration forms, or explicit parameters, or recursion depth >= 2; distinct = distinct case";
 
 fn spec<'a>() -> Spec<'a, UnmockCase> {
-    Spec { project: "C16", prelude: crate::c05::PRELUDE, source: &source, judge: &judge, nbins: 16, max_shrink_steps: 30 }
+    Spec { project: "C16", prelude: crate::c05::PRELUDE, source: &source, judge: &judge, nbins: 16, max_shrink_steps: 30, extra_deps: "" }
 }
 
 pub fn run(ctx: &Ctx) -> Verdict {
